@@ -148,6 +148,16 @@ def spec_call(ex, ev: Eval, node: ast.Call, fname: str):
         if isinstance(m.t, TList):
             return mk_list(m.t, list_len(m), z3.Store(list_arr(m), ev.expr(a[1]).z, coerce_to(ev.expr(a[2]), m.t.elem).z))
         raise Unsupported("store on " + str(m.t))
+    if fname == "is_set":  # is_set(callback_name): the callable-or-None parameter is not None (same atom the code's `if cb:` reads)
+        nm = a[0].id if isinstance(a[0], ast.Name) else None
+        v = ev.st.vars.get(nm)
+        t = v.t if v is not None else None
+        if t is None and nm is not None:
+            decl = ex.variant.get(nm, ex.spec.types.get(nm))
+            t = ex.ptype(decl) if decl else None
+        if not isinstance(t, TFun):
+            raise Unsupported("is_set of a non-callback")
+        return V(BOOL, z3.Bool(f"truthy!{t.fname}"))
     if fname == "xadd":  # extended-real addition of the code's `+` under `ext_inf`: +inf absorbs
         from .expr import INF
         x, y = coerce_to(ev.expr(a[0]), REAL).z, coerce_to(ev.expr(a[1]), REAL).z
